@@ -1,5 +1,20 @@
 """C09 — decoders are total: every public decoder on malformed input (value or error, never panic/abort, bounded memory)."""
-import struct
+import struct, hashlib
+
+B58 = "123456789ABCDEFGHJKLMNPQRSTUVWXYZabcdefghijkmnopqrstuvwxyz"
+
+
+def b58(b):
+    n = int.from_bytes(b, "big")
+    out = ""
+    while n:
+        n, r = divmod(n, 58)
+        out = B58[r] + out
+    return "1" * (len(b) - len(b.lstrip(b"\0"))) + out
+
+
+def b58check(payload):
+    return b58(payload + hashlib.sha256(hashlib.sha256(payload).digest()).digest()[:4])
 
 ID = "C09"
 LEVEL = "proof"
@@ -136,6 +151,19 @@ def generate(rng, tier, pre):
                         add("pubhex", m)
                 if name == "der":
                     add("derhex", b.hex().encode())
+    # 2b. Base58Check strings with a VALID checksum over payloads of every length (incl. the empty payload) and
+    #     plausible version bytes: the length / slice arithmetic behind the checksum test must not panic either
+    for n in list(range(0, 40)) + [45, 72, 73, 74, 77, 78, 79, 81, 82, 90]:
+        for lead in (b"", b"\x80", b"\x00", b"\x04\x88\xad\xe4", b"\x04\x88\xb2\x1e", b"\xef"):
+            if len(lead) > n:
+                continue
+            if q and n > 8 and rng.random() < 0.5:
+                continue
+            body = lead + bytes(rng.randrange(256) for _ in range(n - len(lead)))
+            t = b58check(body).encode()
+            for dec in ("wif", "addr", "xprv", "xpub"):
+                add(dec, t)
+            add("wif", b58(body).encode())
     # 3. transactions / inputs / outputs / scripts with crafted extremes
     txs = [bytes.fromhex("01000000010000000000000000000000000000000000000000000000000000000000000000ffffffff4d04ffff001d0104455468652054696d65732030332f4a616e2f32303039204368616e63656c6c6f72206f6e206272696e6b206f66207365636f6e64206261696c6f757420666f722062616e6b73ffffffff0100f2052a01000000434104678afdb0fe5548271967f1a67130b7105cd6a828e03909a67962e0ea1f61deb649f6bc3f4cef38c4f35504e51ec112de5c384df7ba0b8d578a4c702b6bf11d5fac00000000")]
     txs += [mk_tx(rng) for _ in range(6 if q else 40)]
